@@ -392,11 +392,12 @@ pub fn gen_grammar_idiom(rng: &mut Rng, cfg: &GenCfg, k: usize) -> Vec<Rule> {
             Expr::Choice(bx(Expr::Seq(bx(e.clone()), bx(rest))), bx(e)) }
         _ => Expr::Seq(bx(s(rng)), bx(s(rng))),
     };
-    if (k == 6 || k == 7) && !has_ws {
-        if k == 6 { rules.push(Rule { name: "wsi".into(), ty: *rng.pick(&[RuleType::Normal, RuleType::Silent]), expr: Expr::Choice(bx(Expr::Str(" ".into())), bx(Expr::Str("_".into()))) });
-            rules.push(Rule { name: "WHITESPACE".into(), ty: *rng.pick(&[RuleType::Silent, RuleType::Normal, RuleType::CompoundAtomic, RuleType::NonAtomic, RuleType::Atomic]), expr: Expr::Ident("wsi".into()) }); }
-        else { rules.push(Rule { name: "WHITESPACE".into(), ty: RuleType::Silent, expr: Expr::Str(" ".into()) }); }
-    }
+    if k == 6 {
+        // WHITESPACE through a helper rule, of every modifier in turn (the i-th grammar of this idiom takes the i-th)
+        rules.retain(|r| r.name != "WHITESPACE" && r.name != "wsi");
+        rules.push(Rule { name: "wsi".into(), ty: [RuleType::Normal, RuleType::Normal, RuleType::Silent][variant % 3], expr: Expr::Choice(bx(Expr::Str(" ".into())), bx(Expr::Str("_".into()))) });
+        rules.push(Rule { name: "WHITESPACE".into(), ty: [RuleType::CompoundAtomic, RuleType::Normal, RuleType::NonAtomic, RuleType::Atomic, RuleType::Silent][variant % 5], expr: if variant % 2 == 0 { Expr::Ident("wsi".into()) } else { Expr::Seq(bx(Expr::Ident("wsi".into())), bx(Expr::Opt(bx(Expr::Str("_".into()))))) } });
+    } else if k == 7 && !has_ws { rules.push(Rule { name: "WHITESPACE".into(), ty: RuleType::Silent, expr: Expr::Str(" ".into()) }); }
     let old = std::mem::replace(&mut rules[0].expr, Expr::Str(String::new()));
     // the old body stays reachable; an alternative keeps the start rule from failing outright when the idiom does
     rules[0].expr = if k == 7 { Expr::Seq(bx(idiom), bx(Expr::Opt(bx(old)))) } else if rng.chance(1, 2) { Expr::Seq(bx(idiom), bx(Expr::Opt(bx(old)))) } else { Expr::Choice(bx(Expr::Seq(bx(Expr::Str("c".into())), bx(old))), bx(idiom)) };
